@@ -646,6 +646,12 @@ func genFilterPhase() (string, error) {
 	if err != nil {
 		return "", err
 	}
+	// (c') [proxy8] what follows the task loop when its budget is used up
+	fin, err := c14p8Finish(df, task, taskLoop, phases, avals)
+	if err != nil {
+		return "", err
+	}
+	s += fin
 	sts := aorder["StreamFilterStatus"]
 	if len(sts) == 0 {
 		return "", fmt.Errorf("api.StreamFilterStatus constants not found")
